@@ -245,7 +245,7 @@ def confirm_known(chk, gb, runner, failing, cases, outs, model_by_line):
 def run_check(chk, replay, prop, gen_cases, evaluate, rule, model_ops=('dec', 'renc', 'dflt'), configs=None,
               model_norm=None, extra_dist=None, post=None):
     """gen_cases(gb, rng, tier) -> [case dict with 'line', ...]; evaluate(gb, case, out_line) -> [(reason, cls)]"""
-    gb = genrun.setup(chk, configs=configs)
+    gb = genrun.setup(chk, configs=configs, defer=True)
     # the emitted code of this run, lowered to ops (fam/gen/coq/Generated/EmittedOps.v): part of the family's Coq project
     from . import genops
     for attempt in range(4):
@@ -335,4 +335,5 @@ def run_check(chk, replay, prop, gen_cases, evaluate, rule, model_ops=('dec', 'r
             chk.violation('proof obligation broken: %s (%s)' % (gate.get('failed'), (gate.get('error') or '')[:300]),
                           dict(kind='proof', theorem_file='fam/gen/coq/Properties/%s.v' % prop, failed=gate.get('failed'),
                                error=gate.get('error'), theorems=gate['theorems']), no_input=True)
+    genrun.flush_excluded(chk, gb)      # corpus documents whose emitted code does not compile (reported after the oracles' failures)
     return chk.finish()
